@@ -22,7 +22,7 @@ EXPLANATION = (
 )
 EXPLANATION_ADD = " Additions: (CK-zero) as in C03 for all SCMP encoders; (SIB-demux) the view's and the model's dst_port closures decide identically (same result expression, same branch conditions)."
 EXPLANATION = EXPLANATION + EXPLANATION_ADD
-RESIDUAL = ["checksum arithmetic (C03 residual)", "receiver-side delivery semantics of SCMP errors to application receivers"]
+RESIDUAL = ["checksum arithmetic beyond the carry folds (C03 residual)", "receiver-side delivery semantics of SCMP errors to application receivers beyond the demultiplexing key (SIB-demux)"]
 ASSUMPTIONS = ["an SCMP packet handed to ScmpScionSocket::send_to_via is application-originated, not a reply"]
 TECHNIQUE = "sibling origin-tree templates, post-dominance of the checksum write, provenance of echo fields, guarded construction"
 
